@@ -248,7 +248,10 @@ def check(rep, tier, seed):
                 seen.add(key)
                 rep.mismatch(key, msg, {"case": c, "message": msg})
     # differential part
-    dsizes = [4, 5, 8, 9, 16, 24, 25] if quick else [3, 4, 5, 6, 7, 8, 9, 12, 15, 16, 17, 23, 24, 25, 30, 31, 32, 33, 45, 46, 64, 65]
+    # sizes include those whose circle-padded length ceil(sqrt(2) N) is exactly a power of two (22 -> 32, 45 -> 64,
+    # 90 -> 128: the padded FFT length sits on its boundary) and their neighbours
+    dsizes = [4, 5, 8, 9, 16, 22, 23, 45] if quick else [3, 4, 5, 6, 7, 8, 9, 11, 12, 15, 16, 17, 22, 23, 24, 25, 30, 31, 32, 33,
+                                                        45, 46, 64, 65, 90, 91]
     dres = pmap(differential, [(n, seed) for n in dsizes], procs=16, chunk=1)
     ndiff = 0
     for n, (probs, ne) in zip(dsizes, dres):
